@@ -459,6 +459,9 @@ func (e *Env) evalCall(x *SExpr) Value {
 	case "nulfree":
 		need(1)
 		return specBool(UF("nulfree", SBool, arg(0).L[0]))
+	case "itoa":
+		need(1)
+		return Value{T: tString, L: []*Term{UF("itoa", SInt, e.intTerm(x.Args[0]))}}
 	case "bufarr":
 		need(1)
 		return specInt(bufArr(identOf(arg(0))))
@@ -564,7 +567,7 @@ func (e *Env) evalCall(x *SExpr) Value {
 	}
 	app := UF("spec."+name, sf.Sort, flat...)
 	key := app.String()
-	if e.rdepth < 4 && !e.live.Defs[key] {
+	if e.rdepth < 3 && !e.live.Defs[key] {
 		e.live.Defs[key] = true
 		n := e.with(vars)
 		n.rdepth = e.rdepth + 1
